@@ -53,26 +53,40 @@ Proof.
 Qed.
 
 (* comparing two dates as strings is comparing them as calendar dates *)
+Lemma digits_order : forall la lb acca accb,
+  length la = length lb ->
+  Forall (fun c => is_digit c = true) la -> Forall (fun c => is_digit c = true) lb ->
+  N.ltb (digits_val acca la) (digits_val accb lb) =
+  if N.ltb acca accb then true else if N.eqb acca accb then str_ltb la lb else false.
+Proof.
+  unfold digits_val.
+  induction la as [|x la IH]; intros [|y lb] acca accb L Fa Fb; simpl in L; try discriminate.
+  - simpl. destruct (N.ltb_spec acca accb), (N.eqb_spec acca accb); try reflexivity; lia.
+  - inversion Fa as [|? ? Hx Fa']; inversion Fb as [|? ? Hy Fb']; subst.
+    cbn [fold_left str_ltb]. rewrite IH by (auto; lia).
+    unfold is_digit in Hx, Hy. apply andb_true_iff in Hx. apply andb_true_iff in Hy.
+    destruct Hx as [X1 X2], Hy as [Y1 Y2].
+    apply N.leb_le in X1. apply N.leb_le in X2. apply N.leb_le in Y1. apply N.leb_le in Y2.
+    destruct (N.ltb_spec acca accb), (N.eqb_spec acca accb),
+             (N.ltb_spec x y), (N.eqb_spec x y),
+             (N.ltb_spec (acca * 10 + (x - 48)) (accb * 10 + (y - 48))),
+             (N.eqb_spec (acca * 10 + (x - 48)) (accb * 10 + (y - 48))); try reflexivity; try lia.
+Qed.
+
 Lemma date_order : forall a b, date_shaped a = true -> date_shaped b = true ->
   str_ltb a b = N.ltb (date_num a) (date_num b).
 Proof.
   intros a b Ha Hb. unfold date_shaped in Ha, Hb.
   destruct a as [|a1 [|a2 [|a3 [|a4 [|a5 [|a6 [|a7 [|a8 [|a9 [|a10 [|z t]]]]]]]]]]]; try discriminate.
   destruct b as [|b1 [|b2 [|b3 [|b4 [|b5 [|b6 [|b7 [|b8 [|b9 [|b10 [|z t]]]]]]]]]]]; try discriminate.
-  unfold is_digit, DASH in Ha, Hb.
   repeat match goal with
          | H : _ && _ = true |- _ => apply andb_true_iff in H; destruct H
-         | H : N.leb _ _ = true |- _ => apply N.leb_le in H
-         | H : N.eqb _ _ = true |- _ => apply N.eqb_eq in H
          end.
-  subst. unfold date_num. cbn [str_ltb].
   repeat match goal with
-         | |- (if N.ltb ?x ?y then true else _) = _ =>
-             destruct (N.ltb_spec x y);
-             [symmetry; apply N.ltb_lt; lia
-             |destruct (N.eqb_spec x y); [subst|symmetry; apply N.ltb_ge; lia]]
+         | H : N.eqb _ DASH = true |- _ => apply N.eqb_eq in H; subst
          end.
-  symmetry. apply N.ltb_irrefl.
+  unfold date_num. rewrite digits_order by (try reflexivity; repeat constructor; assumption).
+  unfold DASH. cbn. reflexivity.
 Qed.
 
 (* ------------------------------------------------------------------ candidates *)
